@@ -264,6 +264,12 @@ def single_defs(fn):
                 count[x] = count.get(x, 0) + 2
         elif isinstance(n, (ast.ExceptHandler,)) and n.name:
             count[n.name] = count.get(n.name, 0) + 2
+        elif isinstance(n, (ast.FunctionDef, ast.AsyncFunctionDef, ast.ClassDef)) and n is not fn:
+            count[n.name] = count.get(n.name, 0) + 1
+        elif isinstance(n, (ast.Import, ast.ImportFrom)):
+            for a in n.names:
+                nm = (a.asname or a.name).split(".")[0]
+                count[nm] = count.get(nm, 0) + 1
         if isinstance(n, ast.Assign) and len(n.targets) == 1 and isinstance(n.targets[0], ast.Name):
             val[n.targets[0].id] = n.value
         if isinstance(n, (ast.Attribute, ast.Subscript)) and isinstance(n.ctx, (ast.Store, ast.Del)):
